@@ -27,13 +27,17 @@ type attempt struct {
 }
 
 type sentenceOpts struct {
-	Named       bool // every Any/Choice gets a Name
-	NameSeqs    bool // sequences get a Name as well
-	ExplicitEnd bool // harness-built SeqOf(root, End).Bind(Select(0)) with a probe around End instead of combinator.Sentence
-	NoMemo      bool
-	NoSentence  bool // the nonterminal itself is the root
-	Evaluate    bool
-	Before      []int // lengths of files placed before the parsed file
+	Named    bool // every Any/Choice gets a Name
+	NameSeqs bool // sequences get a Name as well
+	// NameOptionals: Name() directly on some Optionals. NOTE: on the unchanged tree this changes what the grammar accepts
+	// (ReturnError drops a result whenever an error accompanies it, so a named Optional fails when its operand fails);
+	// only C06 uses it - its oracle judges error positions from the attempt log and does not depend on the language
+	NameOptionals bool
+	ExplicitEnd   bool // harness-built SeqOf(root, End).Bind(Select(0)) with a probe around End instead of combinator.Sentence
+	NoMemo        bool
+	NoSentence    bool // the nonterminal itself is the root
+	Evaluate      bool
+	Before        []int // lengths of files placed before the parsed file
 }
 
 type sentenceResult struct {
@@ -109,6 +113,9 @@ func runSentence(c GCase, o sentenceOpts) *sentenceResult {
 			}
 			if o.NameSeqs && gram.IsSeqLike(e.Op) {
 				return fmt.Sprintf("seq%d", e.ID)
+			}
+			if o.NameOptionals && e.Op == gram.OpOpt && e.ID%2 == 0 {
+				return fmt.Sprintf("opt%d", e.ID) // Name() directly on an Optional (a parser that returns a result together with an error)
 			}
 			return ""
 		}
